@@ -439,6 +439,24 @@ func runC20(c *Ctx) {
 			c.Pred("pairs", "dedup-keeps-different-names", "a="+hx(wa)+" b="+hx(wb), len(out) == 2 || canonRR(wa) == canonRR(wb), fmt.Sprint(len(out)), "2", true)
 		}
 	}
+	// the OPT pseudo-record is a record too: one read from the wire is a duplicate of itself and of its copy
+	for i := 0; i < 4; i++ {
+		o := &dns.OPT{Hdr: dns.RR_Header{Name: ".", Rrtype: dns.TypeOPT}}
+		o.SetUDPSize(uint16(512 + 100*i))
+		if i%2 == 1 {
+			o.Option = append(o.Option, &dns.EDNS0_NSID{Code: dns.EDNS0NSID, Nsid: "abcd"})
+		}
+		w, err := packRRBytes(o)
+		if err != nil {
+			continue
+		}
+		a, _, err := dns.UnpackRR(w, 0)
+		if err != nil {
+			continue
+		}
+		c.Pred("single", "isdup-reflexive:OPT", hx(w), dns.IsDuplicate(a, a), "false", "true", true)
+		c.Pred("single", "isdup-copy:OPT", hx(w), dns.IsDuplicate(a, dns.Copy(a)) && dns.IsDuplicate(dns.Copy(a), a), "false", "true", true)
+	}
 	// the same text with the label boundaries elsewhere: a dot inside a label (wire label `a.b`) against a label boundary
 	// (wire labels `a`, `b`), in the owner and in every name of the RDATA; also with case and TTL differing
 	for i, n := 0, c.Scale(60, 1500); i < n; i++ {
